@@ -6,8 +6,8 @@
    request is passed) is reused by Proofs/P2_Crash.v. *)
 From stdpp Require Import gmap.
 From RecordUpdate Require Import RecordUpdate.
-From Coq Require Import NArith Lia.
-From OC Require Import Model.Proto2 Proofs.P2Base Proofs.P2Phases.
+From Coq Require Import NArith Lia String.
+From OC Require Import Base.Bytes Model.P2Pure Model.Proto2 Model.P2Inst Proofs.P2Base Proofs.P2Phases.
 Open Scope N_scope.
 
 (** * The classification table (no section parameters) *)
@@ -156,9 +156,10 @@ Section Failure.
       | ClsRetry => ([ev], RRetry)
       | ClsWait => ([ev], RDone)
       | ClsFail f =>
-        ([ev; EPutAValues t (restore (c_avalues C) (aview C));
-          EPutCfg t (C <| c_applied := i |> <| c_inline := touched i (view C) ch |> <| c_ainline := v_empty |>);
-          EPutProp (t, i) (P <| p_apply := Some Failed |> <| p_afail := Some f |> <| p_term := c_term C |>)], RDone)
+        ([ev; EPutProp (t, i) (P <| p_apply := Some Failed |> <| p_afail := Some f |> <| p_term := c_term C |>);
+          EPutAValues t (restore (c_avalues C) (aview C));
+          EPutCfg t (C <| c_applied := i |> <| c_inline := touched i (view C) ch |> <| c_ainline := v_empty |>)],
+         if p_next P =? 0 then RDone else RRequeueProp (t, p_next P))
       end
     end.
 
@@ -251,6 +252,22 @@ Section Failure.
     rewrite HC, lookup_insert, insert_insert. cbn. repeat split.
   Qed.
 
+  (* the same for the order of a refused apply: the proposal is written first *)
+  Lemma refused_world (w : world) t i (P P' : prop) (C : config) ev va inl :
+    props w !! (t, i) = Some P -> cfgs w !! t = Some C ->
+    let w' := fold_left apply_eff
+                [EDev ev; EPutProp (t, i) P'; EPutAValues t va;
+                 EPutCfg t (C <| c_applied := i |> <| c_inline := inl |> <| c_ainline := v_empty |>)] w in
+    props w' = <[(t, i) := P']> (props w) /\
+    cfgs w' = <[t := C <| c_applied := i |> <| c_inline := inl |> <| c_ainline := v_empty |> <| c_avalues := va |>]> (cfgs w) /\
+    txs w' = txs w.
+  Proof.
+    intros HP HC. cbn [fold_left].
+    rewrite props_apply_eff, cfgs_apply_eff, txs_apply_eff.
+    rewrite !props_apply_eff, !cfgs_apply_eff, !txs_apply_eff.
+    rewrite HC, lookup_insert, insert_insert. cbn. repeat split.
+  Qed.
+
   Lemma ok_world (o : oracle) (w : world) t i P C m req (k : nat) :
     sendable w t i P C m req ->
     dev_answer w t (c_term C) o = COk ->
@@ -279,9 +296,10 @@ Section Failure.
     classify (observed (dev_answer w t (c_term C) o)) = ClsFail f ->
     rec_prop o w (t, i) =
       ([EDev (DevSet t m (c_term C) (Some i) req (dev_answer w t (c_term C) o));
+        EPutProp (t, i) (P <| p_apply := Some Failed |> <| p_afail := Some f |> <| p_term := c_term C |>);
         EPutAValues t (restore (c_avalues C) (aview C));
-        EPutCfg t (C <| c_applied := i |> <| c_inline := touched i (view C) (rb_change P) |> <| c_ainline := v_empty |>);
-        EPutProp (t, i) (P <| p_apply := Some Failed |> <| p_afail := Some f |> <| p_term := c_term C |>)], RDone).
+        EPutCfg t (C <| c_applied := i |> <| c_inline := touched i (view C) (rb_change P) |> <| c_ainline := v_empty |>)],
+       if p_next P =? 0 then RDone else RRequeueProp (t, p_next P)).
   Proof.
     intros Hs Hne Hc. rewrite (rec_prop_send o w t i P C m req Hs). unfold after_answer. rewrite Hc.
     destruct (dev_answer w t (c_term C) o); try reflexivity. exfalso; apply Hne; reflexivity.
@@ -300,7 +318,7 @@ Section Failure.
   Proof.
     intros Hs Hne Hc Hk. cbn [Proto2.step Proto2.reconcile]. rewrite (refusal_effects o w t i P C m req f Hs Hne Hc). cbn [fst].
     rewrite firstn_all2 by (cbn; lia).
-    destruct (apply_world w t i P (P <| p_apply := Some Failed |> <| p_afail := Some f |> <| p_term := c_term C |>) C
+    destruct (refused_world w t i P (P <| p_apply := Some Failed |> <| p_afail := Some f |> <| p_term := c_term C |>) C
                 (DevSet t m (c_term C) (Some i) req (dev_answer w t (c_term C) o))
                 (restore (c_avalues C) (aview C))
                 (touched i (view C) (rb_change P)) (sd_prop _ _ _ _ _ _ _ Hs) (sd_cfg _ _ _ _ _ _ _ Hs)) as (E1 & E2 & E3).
@@ -311,4 +329,246 @@ Section Failure.
       exfalso; apply Hne; reflexivity.
     - exact E3.
   Qed.
+
+  (** * The transaction reconciler reports the failure class *)
+  Lemma scan_props_found (w : world) i tg (f : prop -> bool) :
+    (forall t, In t tg -> is_Some (props w !! (t, i))) ->
+    (exists t p, In t tg /\ props w !! (t, i) = Some p /\ f p = true) ->
+    exists t p, In t tg /\ props w !! (t, i) = Some p /\ f p = true /\ scan_props w i tg f = Some (inr (t, p)).
+  Proof.
+    induction tg as [|t0 ts IH]; intros Hall (t & p & Hin & Hp & Hf); [destruct Hin|].
+    cbn [scan_props]. destruct (Hall t0 (or_introl eq_refl)) as [p0 Hp0]. rewrite Hp0.
+    destruct (f p0) eqn:Hf0.
+    - exists t0, p0. repeat split; auto. left; reflexivity.
+    - destruct Hin as [<-|Hin]; [rewrite Hp0 in Hp; injection Hp as <-; rewrite Hf in Hf0; discriminate|].
+      destruct IH as (t1 & p1 & Hin1 & Hp1 & Hf1 & Hs1).
+      + intros t' Ht'. apply Hall. right; exact Ht'.
+      + exists t, p. auto.
+      + exists t1, p1. repeat split; auto. right; exact Hin1.
+  Qed.
+
+  (* the transaction is APPLYING, every proposal has entered its Apply phase and one of them FAILED:
+     the transaction is written FAILED with the failure of (the first, in scan order) failed proposal *)
+  Lemma tx_reports_failure (w : world) i (T : txn) tg :
+    txs w !! i = Some T -> t_apply T = Some Doing -> t_props T = Some tg ->
+    (forall t, In t tg -> exists p, props w !! (t, i) = Some p /\ is_Some (p_apply p)) ->
+    (exists t p, In t tg /\ props w !! (t, i) = Some p /\ p_apply p = Some Failed) ->
+    exists t p, In t tg /\ props w !! (t, i) = Some p /\ p_apply p = Some Failed /\
+      rec_tx w i = ([EPutTx i (T <| t_state := TFailed |> <| t_failure := p_afail p |> <| t_apply := Some Failed |>)], RDone).
+  Proof.
+    intros HT Ha Hp Hall (t & p & Hin & Hpp & Hf).
+    unfold Proto2.rec_tx. rewrite HT. cbv zeta. rewrite Ha, Hp. cbn [default]. unfold id, phase_scan.
+    match goal with |- context [scan_props w i tg ?f] =>
+      destruct (scan_props_found w i tg f) as (t1 & p1 & Hin1 & Hp1 & Hf1 & Hs1) end.
+    - intros t' Ht'. destruct (Hall t' Ht') as (p' & Hp' & _). eexists; exact Hp'.
+    - exists t, p. repeat split; auto. rewrite Hf. cbn. rewrite bool_decide_eq_true_2 by reflexivity. reflexivity.
+    - rewrite Hs1. destruct (Hall t1 Hin1) as (p1' & Hp1' & [a Hs]). rewrite Hp1 in Hp1'. injection Hp1' as <-.
+      rewrite Hs in Hf1 |- *. cbn in Hf1 |- *. apply bool_decide_eq_true_1 in Hf1.
+      exists t1, p1. repeat split; auto. rewrite Hs. exact Hf1.
+  Qed.
+
+  (* single target: the class recorded by the proposal is the class reported by the transaction *)
+  Lemma tx_reports_failure_single (w : world) i (T : txn) t (P : prop) f :
+    txs w !! i = Some T -> t_apply T = Some Doing -> t_props T = Some [t] ->
+    props w !! (t, i) = Some P -> p_apply P = Some Failed -> p_afail P = Some f ->
+    rec_tx w i = ([EPutTx i (T <| t_state := TFailed |> <| t_failure := Some f |> <| t_apply := Some Failed |>)], RDone).
+  Proof.
+    intros HT Ha Hp HP Hf Haf.
+    destruct (tx_reports_failure w i T [t] HT Ha Hp) as (t1 & p1 & Hin & Hp1 & _ & Hr).
+    - intros t' [<-|[]]. exists P. split; [exact HP|]. rewrite Hf. eexists; reflexivity.
+    - exists t, P. repeat split; auto. left; reflexivity.
+    - destruct Hin as [<-|[]]. rewrite HP in Hp1. injection Hp1 as <-. rewrite Hr, Haf. reflexivity.
+  Qed.
+
+  (** * The successor is not blocked *)
+  (* the applied index equals the successor's PrevIndex: whatever else holds, the successor's invocation does not
+     take the "wait for the predecessor" exit (no effect, requeue of the predecessor) *)
+  Lemma successor_gate_open (o : oracle) (w : world) t j (Q : prop) (C : config) :
+    props w !! (t, j) = Some Q -> p_apply Q = Some Doing -> cfgs w !! t = Some C ->
+    c_applied C = p_prev Q ->
+    rec_prop o w (t, j) <> ([], RRequeueProp (t, p_prev Q)).
+  Proof.
+    intros HQ Ha HC Hc. unfold Proto2.rec_prop. rewrite HQ, Ha, HC, Hc, N.eqb_refl.
+    replace (negb (p_prev Q =? 0) && negb true) with false by (symmetry; apply andb_false_r).
+    destruct_matches; discriminate.
+  Qed.
+
+  (* after a refused apply of (t,i) the successor (PrevIndex = i) that is APPLYING is sendable as soon as its own
+     request can be built: the refused change does not hold it back *)
+  Lemma successor_sendable (o : oracle) (w : world) t i P C m req f (k : nat) j (Q : prop) req' :
+    sendable w t i P C m req ->
+    dev_answer w t (c_term C) o <> COk ->
+    classify (observed (dev_answer w t (c_term C) o)) = ClsFail f ->
+    (4 <= k)%nat ->
+    let w' := step w (LRec (CtlProp (t, i)) k o) in
+    let C' := C <| c_applied := i |> <| c_inline := touched i (view C) (rb_change P) |> <| c_ainline := v_empty |>
+                <| c_avalues := restore (c_avalues C) (aview C) |> in
+    props w' !! (t, j) = Some Q -> p_apply Q = Some Doing -> p_prev Q = i -> i < j ->
+    payload j (view C') (rb_change Q) = Some req' ->
+    sendable w' t j Q C' m req'.
+  Proof.
+    intros Hs Hne Hc Hk w' C' HQ Ha Hprev Hij Hpay.
+    subst w'. cbn [Proto2.step Proto2.reconcile] in *. rewrite (refusal_effects o w t i P C m req f Hs Hne Hc) in *. cbn [fst] in *.
+    rewrite firstn_all2 in * by (cbn; lia).
+    destruct (refused_world w t i P (P <| p_apply := Some Failed |> <| p_afail := Some f |> <| p_term := c_term C |>) C
+                (DevSet t m (c_term C) (Some i) req (dev_answer w t (c_term C) o))
+                (restore (c_avalues C) (aview C))
+                (touched i (view C) (rb_change P)) (sd_prop _ _ _ _ _ _ _ Hs) (sd_cfg _ _ _ _ _ _ _ Hs)) as (E1 & E2 & E3).
+    destruct Hs as [H1 H2 H3 H4 H5 H6 H7 H8 H9 H10 H11 H12].
+    split.
+    - exact HQ.
+    - exact Ha.
+    - rewrite E2, lookup_insert. reflexivity.
+    - cbn. exact Hij.
+    - right. cbn. symmetry. exact Hprev.
+    - cbn. exact H6.
+    - cbn [fold_left]. rewrite !targets_apply_eff. exact H7.
+    - cbn. exact H8.
+    - cbn. exact H9.
+    - cbn [fold_left]. rewrite !rels_apply_eff. exact H10.
+    - cbn [fold_left]. rewrite !conns_apply_eff. exact H11.
+    - exact Hpay.
+  Qed.
+
+  (** * An invocation for (t,i) never writes a record of another target *)
+  Definition on_target (t : N) (e : eff) : Prop :=
+    match e with
+    | EPutProp k _ => k.1 = t
+    | ECreateCfg t' _ | EPutCfg t' _ | EPutValues t' _ | EPutAValues t' _ => t' = t
+    | EDev (DevSet t' _ _ _ _ _) => t' = t
+    | EPutTx _ _ | ECreateProp _ _ | ERelCreate _ _ | ERelDelete _ => False
+    end.
+
+  Ltac on_target_tac :=
+    repeat first [ apply List.Forall_nil | apply List.Forall_cons; [reflexivity|] ].
+
+  Lemma rec_prop_on_target (o : oracle) (w : world) t i : Forall (on_target t) (fst (rec_prop o w (t, i))).
+  Proof.
+    unfold Proto2.rec_prop, Proto2.vfail, Proto2.upd_status.
+    destruct (props w !! (t, i)) as [P|] eqn:HP; [|apply List.Forall_nil].
+    destruct_matches; cbn [fst app]; on_target_tac.
+    match goal with H : _ = Some ?e |- Forall _ [?e] =>
+      repeat match type of H with context [match ?x with _ => _ end] => destruct x eqn:? end;
+      try discriminate H; injection H as <-; on_target_tac
+    end.
+  Qed.
+
+  (* what an effect on target t leaves alone *)
+  Definition same_elsewhere (t : N) (w w' : world) : Prop :=
+    txs w' = txs w /\ targets w' = targets w /\ rels w' = rels w /\ conns w' = conns w /\
+    next_index w' = next_index w /\
+    (forall t' j, t' <> t -> props w' !! (t', j) = props w !! (t', j)) /\
+    (forall t', t' <> t -> cfgs w' !! t' = cfgs w !! t') /\
+    (forall t', t' <> t -> devs w' !! t' = devs w !! t').
+
+  Lemma same_elsewhere_refl t (w : world) : same_elsewhere t w w.
+  Proof. repeat split. Qed.
+
+  Lemma same_elsewhere_trans t (w1 w2 w3 : world) :
+    same_elsewhere t w1 w2 -> same_elsewhere t w2 w3 -> same_elsewhere t w1 w3.
+  Proof.
+    intros (A1 & A2 & A3 & A4 & A5 & A6 & A7 & A8) (B1 & B2 & B3 & B4 & B5 & B6 & B7 & B8).
+    repeat split; try congruence.
+    - intros t' j Hn. rewrite B6, A6 by exact Hn. reflexivity.
+    - intros t' Hn. rewrite B7, A7 by exact Hn. reflexivity.
+    - intros t' Hn. rewrite B8, A8 by exact Hn. reflexivity.
+  Qed.
+
+  Lemma on_target_eff t (w : world) e : on_target t e -> same_elsewhere t w (apply_eff w e).
+  Proof.
+    intros He. unfold same_elsewhere.
+    rewrite txs_apply_eff, targets_apply_eff, rels_apply_eff, conns_apply_eff, next_index_apply_eff,
+      props_apply_eff, cfgs_apply_eff, devs_apply_eff.
+    destruct e as [| |[t1 j1] p| t1 c| t1 c| t1 v| t1 v| | | [t1 c term o r a]]; cbn in He; try (exfalso; exact He); subst t;
+      repeat split; try reflexivity.
+    - intros t' j Hn. rewrite lookup_insert_ne; [reflexivity|]. intros [= -> _]. apply Hn; reflexivity.
+    - intros t' Hn. destruct (cfgs w !! t1); try reflexivity; (rewrite lookup_insert_ne; [reflexivity|]); intros ->; apply Hn; reflexivity.
+    - intros t' Hn. destruct (cfgs w !! t1); try reflexivity; (rewrite lookup_insert_ne; [reflexivity|]); intros ->; apply Hn; reflexivity.
+    - intros t' Hn. destruct (cfgs w !! t1); try reflexivity; (rewrite lookup_insert_ne; [reflexivity|]); intros ->; apply Hn; reflexivity.
+    - intros t' Hn. destruct (cfgs w !! t1); try reflexivity; (rewrite lookup_insert_ne; [reflexivity|]); intros ->; apply Hn; reflexivity.
+    - intros t' Hn. destruct a; try reflexivity. rewrite lookup_insert_ne; [reflexivity|]. intros ->; apply Hn; reflexivity.
+  Qed.
+
+  Lemma on_target_effs t (effs : list eff) : forall w : world,
+    Forall (on_target t) effs -> same_elsewhere t w (fold_left apply_eff effs w).
+  Proof.
+    induction effs as [|e r IH]; intros w Hf; [apply same_elsewhere_refl|].
+    inversion Hf as [|? ? He Hr]; subst. cbn [fold_left].
+    eapply same_elsewhere_trans; [apply on_target_eff; exact He|apply IH; exact Hr].
+  Qed.
+
+  (* every prefix of an invocation of the proposal reconciler for (t,i) leaves all other targets' proposals,
+     configurations and devices, and every transaction, exactly as they were *)
+  Lemma rec_prop_frame (o : oracle) (w : world) t i (k : nat) :
+    same_elsewhere t w (step w (LRec (CtlProp (t, i)) k o)).
+  Proof.
+    cbn [Proto2.step Proto2.reconcile]. apply on_target_effs. apply Forall_take. apply rec_prop_on_target.
+  Qed.
 End Failure.
+
+(** * The hypotheses of the lemmas above are satisfiable: a reachable world of the executable instance Model/P2Inst.v *)
+Definition x_oracle (a : code) : oracle := mkOracle true true a 0 0.
+(* one round: connection, mastership, configuration controllers of target t, then the proposal and the transaction
+   controllers of the listed indexes, every invocation run to its end *)
+Definition x_round (o : oracle) (t : N) (is : list N) : list Label :=
+  [LRec (CtlConn 10) 9 o; LRec (CtlMaster t) 9 o; LRec (CtlCfg t) 9 o]
+  ++ map (fun i => LRec (CtlProp (t, i)) 9 o) is ++ map (fun i => LRec (CtlTx i) 9 o) is.
+Fixpoint x_rounds (n : nat) (o : oracle) (t : N) (is : list N) : list Label :=
+  match n with O => [] | S n => x_round o t is ++ x_rounds n o t is end.
+Definition x_ch (p v : string) : cmap := [(B p, mkPV (B p) (B v) false 0)].
+Definition x_run (ls : list Label) : Wd := fold_left p2_step ls p2_init.
+Definition x_sendable := @sendable cmap cmap req dstate overlay payload nil.
+
+Lemma x_run_reach ls :
+  reach candidate candidate_rb rollback_of overlay commit_merge payload record_applied touched restore resync_payload doc_ok
+        dev_apply stamp nil nil nil (x_run ls).
+Proof. exists ls. reflexivity. Qed.
+
+(* two changes on target 1 while the device is unreachable: change 1 stays APPLYING and sendable (17 requests were
+   answered Unavailable), change 2 is APPLYING behind it *)
+Definition x_labels : list Label :=
+  [LTarget 1 false; LConnUp 10 1; LChange [(1, x_ch "/a" "1")] true false; LChange [(1, x_ch "/b" "2")] true false]
+  ++ x_rounds 30 (x_oracle CUnavailable) 1 [1; 2].
+Definition x_w : Wd := x_run x_labels.
+(* the refusing invocation, run to its end *)
+Definition x_w_refused : Wd := p2_step x_w (LRec (CtlProp (1, 1)) 4 (x_oracle CInvalidArgument)).
+
+Ltac x_sendable_tac :=
+  split;
+  [ vm_compute; reflexivity | vm_compute; reflexivity | vm_compute; reflexivity | vm_compute; reflexivity
+  | first [ left; vm_compute; reflexivity | right; vm_compute; reflexivity ]
+  | vm_compute; discriminate | vm_compute; eexists; reflexivity | vm_compute; discriminate
+  | vm_compute; reflexivity | vm_compute; eexists; reflexivity | vm_compute; eexists; reflexivity
+  | vm_compute; reflexivity ].
+
+Example x_sendable_world : exists P C r, x_sendable x_w 1 1 P C 10 r /\ List.length (devlog x_w) = 17%nat.
+Proof. eexists _, _, _. split; [x_sendable_tac|vm_compute; reflexivity]. Qed.
+
+Example x_transient_hyps : exists P C r,
+  x_sendable x_w 1 1 P C 10 r /\ transient (dev_answer (nil : dstate) x_w 1 (c_term C) (x_oracle CDeadlineExceeded)).
+Proof. eexists _, _, _. split; [x_sendable_tac|]. right; right; left. vm_compute. reflexivity. Qed.
+
+Example x_ok_hyps : exists P C r,
+  x_sendable x_w 1 1 P C 10 r /\ dev_answer (nil : dstate) x_w 1 (c_term C) (x_oracle COk) = COk.
+Proof. eexists _, _, _. split; [x_sendable_tac|]. vm_compute. reflexivity. Qed.
+
+Example x_refusal_hyps : exists P C r,
+  x_sendable x_w 1 1 P C 10 r /\
+  dev_answer (nil : dstate) x_w 1 (c_term C) (x_oracle CInvalidArgument) <> COk /\
+  classify (observed (dev_answer (nil : dstate) x_w 1 (c_term C) (x_oracle CInvalidArgument))) = ClsFail FInvalid.
+Proof. eexists _, _, _. split; [x_sendable_tac|]. split; vm_compute; [discriminate|reflexivity]. Qed.
+
+(* after the refusal: the transaction reconciler's hypotheses, and the successor's *)
+Example x_tx_reports_hyps : exists T P',
+  txs x_w_refused !! 1 = Some T /\ t_apply T = Some Doing /\ t_props T = Some [1] /\
+  props x_w_refused !! (1, 1) = Some P' /\ p_apply P' = Some Failed /\ p_afail P' = Some FInvalid.
+Proof. eexists _, _. repeat (split; [vm_compute; reflexivity|]). vm_compute; reflexivity. Qed.
+
+Example x_successor_hyps : exists Q C',
+  props x_w_refused !! (1, 2) = Some Q /\ p_apply Q = Some Doing /\ cfgs x_w_refused !! 1 = Some C' /\
+  c_applied C' = p_prev Q /\ p_prev Q = 1 /\ 1 < 2 /\
+  is_Some (payload 2 (view overlay C') (rb_change nil Q)).
+Proof. eexists _, _. repeat (split; [vm_compute; reflexivity|]). vm_compute. eexists; reflexivity. Qed.
+
+Example x_successor_sendable : exists Q C' r', x_sendable x_w_refused 1 2 Q C' 10 r'.
+Proof. eexists _, _, _. x_sendable_tac. Qed.
